@@ -139,6 +139,15 @@ class Fold:
         self.depth = 0
 
     # ------------------------------------------------------------------ values
+    def default_of(self, key, env):
+        """value a field has on a path that did not store to it: its atom (None for keys that are not fields stored through a member expression)"""
+        n = getattr(self, "field_nodes", {}).get(key) if isinstance(key, tuple) else None
+        if n is None:
+            return None
+        if self.opaque_types and re.search(self.opaque_types, n.get("type") or ""):
+            return S(show(n))
+        return self.atom_for(n, env)
+
     def atom_for(self, n, env):
         if self.atom_hook:
             v = self.atom_hook(self, n, env)
@@ -596,6 +605,9 @@ class Fold:
             merged = fin.copy()
             for key in set(e) | set(fin):
                 a, b = e.get(key), fin.get(key)
+                if (a is None) != (b is None) and self.default_of(key, fin) is not None:
+                    a = self.default_of(key, fin) if a is None else a
+                    b = self.default_of(key, fin) if b is None else b
                 if a is not None and b is not None and not self.same(a, b):
                     merged[key] = self.ite(cond, a, b)
                 elif b is None and a is not None:
@@ -817,6 +829,8 @@ class Fold:
                 self.event({"kind": "store", "target": show(tgt), "target_node": tgt, "field": tgt.get("field"), "value": val, "node": node, "via": lhs.get("name")}, env)
             return
         if k == "member":
+            self.field_nodes = getattr(self, "field_nodes", {})
+            self.field_nodes.setdefault(("field", show(lhs)), lhs)
             env[("field", show(lhs))] = val
             self.event({"kind": "store", "target": show(lhs), "field": lhs.get("field"), "value": val, "node": node}, env)
             return
@@ -1018,6 +1032,10 @@ class Fold:
         keys = set(e1) | set(e2)
         for key in keys:
             a, b = e1.get(key), e2.get(key)
+            if (a is None) != (b is None) and self.default_of(key, env) is not None:
+                # a field stored on one branch only keeps its old value on the other
+                a = self.default_of(key, env) if a is None else a
+                b = self.default_of(key, env) if b is None else b
             if a is None or b is None:
                 v = a if a is not None else b
                 if key in env or not isinstance(key, int):
@@ -1216,6 +1234,9 @@ class Fold:
                 continue
             for key in set(env) | set(penv):
                 a, b = penv.get(key), env.get(key)
+                if (a is None) != (b is None) and self.default_of(key, env) is not None:
+                    a = self.default_of(key, env) if a is None else a
+                    b = self.default_of(key, env) if b is None else b
                 if a is None or b is None:
                     if b is None and (not isinstance(key, int)):
                         env[key] = a
